@@ -34,7 +34,9 @@ EXTENDS Integers, Sequences, FiniteSets, TLC
 CONSTANTS A1, N1, A2, N2, A3, N3, A4, N4, A5, N5, A6, N6,   \* token alphabets and length bounds
           MAX,        \* largest value of the signed integer type (operational side)
           MaxDigits,  \* the decimal digits of the machine's MAX for the declarative range rule
-          Extra       \* further texts: boundary families, texts read from a file
+          Extra,      \* further texts: boundary families (a set)
+          ExtraSeq    \* further texts read from a file (a sequence; explored from NRoots root states
+                      \* so that TLC's workers share them)
 
 -----------------------------------------------------------------------------
 \* characters
@@ -51,8 +53,8 @@ UpLo == [A |-> "a", B |-> "b", C |-> "c", D |-> "d", E |-> "e", F |-> "f", G |->
          I |-> "i", J |-> "j", K |-> "k", L |-> "l", M |-> "m", N |-> "n", O |-> "o", P |-> "p",
          Q |-> "q", R |-> "r", S |-> "s", T |-> "t", U |-> "u", V |-> "v", W |-> "w", X |-> "x",
          Y |-> "y", Z |-> "z"]
-Lw(c) == IF c \in DOMAIN UpLo THEN UpLo[c] ELSE c
-LowerLetters == {UpLo[k] : k \in DOMAIN UpLo}
+UpperLetters == DOMAIN UpLo
+Lw(c) == IF c \in UpperLetters THEN UpLo[c] ELSE c
 
 \* tokens that stand for several characters (so that short token sequences reach the long words)
 MultiTok == {"inf", "INF", "inity", "nan", "NaN", "0x", "0X", "e9999", "e-9999"}
@@ -364,20 +366,26 @@ AtoiOp(s0) ==
 
 -----------------------------------------------------------------------------
 NoExtra == {}
+NoExtraSeq == <<>>
 
 \* Texts are explored by extension, one family (alphabet, bound) at a time, so that TLC's workers
-\* share the work; fam = 0 marks the Extra texts.
+\* share the work; fam = 0 marks the Extra / ExtraSeq texts, fam < 0 the roots of ExtraSeq.
 Alpha(k) == CASE k = 1 -> A1 [] k = 2 -> A2 [] k = 3 -> A3 [] k = 4 -> A4 [] k = 5 -> A5 [] k = 6 -> A6
 Bound(k) == CASE k = 1 -> N1 [] k = 2 -> N2 [] k = 3 -> N3 [] k = 4 -> N4 [] k = 5 -> N5 [] k = 6 -> N6
 
+NRoots == 16
 VARIABLES toks, fam
 vars == <<toks, fam>>
 Init == \/ fam \in 1..6 /\ toks = <<>>
         \/ fam = 0 /\ toks \in Extra
-Next == /\ fam \in 1..6
-        /\ Len(toks) < Bound(fam)
-        /\ \E a \in Alpha(fam) : toks' = Append(toks, a)
-        /\ fam' = fam
+        \/ ExtraSeq # <<>> /\ fam \in {-r : r \in 1..NRoots} /\ toks = <<>>
+Next == \/ /\ fam \in 1..6
+           /\ Len(toks) < Bound(fam)
+           /\ \E a \in Alpha(fam) : toks' = Append(toks, a)
+           /\ fam' = fam
+        \/ /\ fam < 0
+           /\ \E i \in 1..Len(ExtraSeq) : i % NRoots = (-fam) - 1 /\ toks' = ExtraSeq[i]
+           /\ fam' = 0
 Spec == Init /\ [][Next]_vars
 
 Text == Expand(toks)
